@@ -78,6 +78,8 @@ func (f Fact) Subst(actual []*Term) Fact {
 // FactSet is a set of facts; nil means TOP (unreachable: every fact holds).
 type FactSet map[string]Fact
 
+func (s FactSet) Clone() FactSet { return s.clone() }
+
 func (s FactSet) clone() FactSet {
 	n := make(FactSet, len(s))
 	for k, v := range s {
